@@ -1,17 +1,57 @@
 import LyModel.Val.InstId
+import LyModel.Val.DrvBase
 import LyModel.Path.Drv
 /-! driver ops of the instance-identifier model: same request lines as `harness/api_types.c` with the type descriptor
-    `instid:<schema>:<yang-hex>[,<yang-hex>…]` — `<schema>` is the schema serialisation of the `path` protocol
-    (`LyModel/Path/Drv.lean`), which the harness checks against the `lysc_node` tree it compiled from the YANG modules
-    (`err Schema` if they differ); the model reads `<schema>` only.  Ops `validate`, `store`, `cmp`, `lybrt`, `unlyb`. -/
+    `instid:<tschema>:<yang-hex>[,<yang-hex>…]` — `<tschema>` is the schema serialisation of the `path` protocol
+    (`LyModel/Path/Drv.lean`) with one more field per node, the type of a leaf / leaf-list:
+      tnode := '(' hex ',' hex ',' kind ',' tyhex ',' tnode* ')'     tyhex = hex of a type descriptor of `DrvBase.parseTy`
+                                                                    (`i8:1..10`, `bool`, `enum:<hex>=<v>,…`, `str`), `-` = none;
+                                                                    a descriptor the model does not know (`inst`, `?`) = no type
+    The harness checks it against the `lysc_node` trees it compiled from the YANG modules (`err Schema` if they differ); the
+    model reads `<tschema>` only.  Ops `validate`, `store`, `cmp`, `lybrt`, `unlyb`. -/
 namespace LyModel.Val.DrvInst
 open LyModel LyModel.Val LyModel.Val.InstId
 
 def isDesc (d : String) : Bool := d.startsWith "instid:"
 
-def schemaOfDesc (d : String) : Option (List Path.SNode) :=
+def tyOfHex (b : Bytes) : Option Ty :=
+  if b.isEmpty then none else
+  match String.fromUTF8? ⟨b.toArray⟩ with
+  | some d => LyModel.Val.Drv.parseTy d
+  | none => none
+
+def parseTNodes : Nat → List Char → Option (List TNode × List Char)
+  | 0, _ => none
+  | f + 1, '(' :: r =>
+    match Path.Drv.hexField r with
+    | none => none
+    | some (m, r) =>
+      match Path.Drv.hexField r with
+      | none => none
+      | some (n, r) =>
+        match r with
+        | kc :: ',' :: r =>
+          match Path.Drv.kindOfChar kc, Path.Drv.hexField r with
+          | some k, some (t, r) =>
+            match parseTNodes f r with
+            | some (ch, ')' :: r) =>
+              match parseTNodes f r with
+              | some (sibs, r) => some (TNode.mk m n k (tyOfHex t) ch :: sibs, r)
+              | none => none
+            | _ => none
+          | _, _ => none
+        | _ => none
+  | _ + 1, cs => some ([], cs)
+
+def readTSchema (s : String) : Option (List TNode) :=
+  if s == "-" then some [] else
+  match parseTNodes (s.length + 1) s.toList with
+  | some (f, []) => some f
+  | _ => none
+
+def schemaOfDesc (d : String) : Option (List TNode) :=
   match d.splitOn ":" with
-  | ["instid", s, _] => Path.Drv.readSchema s
+  | ["instid", s, _] => readTSchema s
   | _ => none
 
 def sgn (i : Int) : String := if i < 0 then "-1" else if i > 0 then "1" else "0"
@@ -20,7 +60,7 @@ def cmpFields (eq : Bool) (so : Int) (ceq : Bool) : String :=
   "ok " ++ (if eq then "1" else "0") ++ " " ++ sgn so ++ " " ++ (if ceq then "1" else "0") ++ " " ++
     (if so ≤ 0 then "a" else "b") ++ " " ++ (if so < 0 then "a" else "b")
 
-def handleSchema (sc : List Path.SNode) (op : String) (args : List String) : String :=
+def handleSchema (sc : List TNode) (op : String) (args : List String) : String :=
   match op, args with
   | "store", [_, h, x] =>
     match h.toNat?, Hex.dec x with
